@@ -197,14 +197,14 @@ Proof.
 Qed.
 
 Lemma be_stage_ok G : closed G -> acyclic G ->
-  forall f, length G + 1 <= f -> be_stage f G = be_result G.
+  forall f, length G + 1 + walk_bound G <= f -> be_stage f G = be_result G.
 Proof.
   intros C A f Hf. unfold be_stage, be_result.
   destruct (existsb _ _); auto.
   destruct (existsb (fun v => existsb (fun c => negb (g_export (get G c))) (succs G v))
                     (export_ids G)) eqn:E2; auto.
   rewrite all_some_tt.
-  - rewrite limits_ok_on_acyclic; auto.
+  - rewrite limits_ok_on_acyclic; auto; [|lia].
     intros v c Hv Hc.
     destruct (Nat.lt_ge_cases v (length G)) as [Hl|Hl]; [|rewrite succs_out in Hc by auto; destruct Hc].
     destruct (g_export (get G c)) eqn:Ec; auto. exfalso.
@@ -221,7 +221,8 @@ Lemma exec_rest_ok fl r n0 G : inv_len r n0 G ->
   exists F o, (forall f, F <= f -> exec_rest fl f G = o) /\ o <> MDiverge.
 Proof.
   intros P. destruct (fe_rest_ok fl r n0 G P) as [F [G5 [H I5]]].
-  exists (Nat.max F (length G5 + 1)), (be_result G5). split; [|apply be_result_not_diverge].
+  exists (Nat.max F (length G5 + 1 + walk_bound G5)), (be_result G5).
+  split; [|apply be_result_not_diverge].
   intros f Hf. unfold exec_rest. rewrite H by lia.
   apply be_stage_ok; [apply (inv_closed _ _ _ I5) | apply (inv_acyclic _ _ _ I5) | lia].
 Qed.
@@ -277,7 +278,8 @@ Qed.
 (* =============================================== the unrepaired compiler on cycles *)
 Definition default_flags : flags := mkFlags true false false.
 
-(* a -> b -> a, default flags: the back end's bbox recursion never returns (stack overflow) *)
+(* a -> b -> a, default flags: the back end's bbox walk never ends (a stack overflow before
+   c15-bbox-iterative, a hang after it) *)
 Theorem unfixed_exec_diverges_on_two_cycle : forall f, exec false default_flags f two_cycle = MDiverge.
 Proof.
   intros f. destruct f as [|f]; [reflexivity|].
